@@ -190,6 +190,20 @@ func init() {
 		fresh := tak.New(cfg)
 		return fmtOutcome(q) + " " + accStr(q) + " new=" + strconv.Itoa(fresh.Size()) + "," + strconv.Itoa(fresh.WhiteStones())
 	}
+	// newplay <size> <pieces> <caps> <bwt> <moves...>: a game from tak.New(cfg) - the configuration as the CALLER wrote it
+	// (any of the counts may be left 0 = standard) - played through Position.Move up to the first refused move
+	opTable["newplay"] = func(s *Session, a []string) string {
+		cfg := tak.Config{Size: atoi(a[0]), Pieces: atoi(a[1]), Capstones: atoi(a[2]), BlackWinsTies: a[3] != "0"}
+		p := tak.New(cfg)
+		for i, t := range a[4:] {
+			n, err := p.Move(decMove(t))
+			if err != nil {
+				return "err@" + strconv.Itoa(i) + " " + dumpPos(p)
+			}
+			p = n
+		}
+		return "ok " + dumpPos(p)
+	}
 	// overclone: the verdict of a CLONE of a position that lived in a search-stack frame, after that frame was reused
 	opTable["overclone"] = func(s *Session, a []string) string {
 		p := decPos(a[0])
